@@ -53,6 +53,10 @@ CHECKS = {
         technique="deterministic simulation: independently configured endpoint pairs (exhaustive over version-set pairs) with a man in the middle rewriting single hello fields; executable negotiation model as oracle",
         text="All 49 pairs of TLS version subsets (with and without TLS_FALLBACK_SCSV) and all DTLS pairs as fixed plans, plus a seeded swarm over suite offers, TLS 1.3 groups/key shares, EMS settings; 17 kinds of single-field rewrites of the transcript-covered ClientHello/ServerHello. "
              "Oracle: on completion the version is enabled on both sides, offered, and the highest common one; the suite was offered; both ends report identical parameters and exchange data; no rewritten hello ever leads to completion; SCSV against a server with a higher version fails."),
+    "C06": dict(engine="msgseq", level="exploration", design="10/C06",
+        technique="deterministic simulation: every single-step deviation (delete/duplicate/swap/substitute/inject) of every legal handshake trace by a man in the middle, plus a byzantine peer omitting mandatory messages through a guarded hook",
+        text="16 handshake modes across TLS 1.1-1.3 and DTLS; fixed plans enumerate all single-step deviations at every plaintext handshake/CCS record position in both directions, seeded plans sample substitutions/injections; "
+             "the byzantine peer is real MatrixSSL compiled with MATRIXSSL_VERIF skip points so both transcripts agree and only the receiver's state machine can refuse. Oracle: a receiver whose inbound sequence deviates never completes (protocol-mandated absorptions excepted); every legal trace completes (control)."),
 }
 
 NOT_APPLICABLE = [
